@@ -245,14 +245,17 @@ spec("C19", ["C19/", "panic", "send/", "setup/"], c19_jobs("quick"), c19_jobs("t
 spec("C20", ["C20/"], [J("traceroute", "Verif_C20_fallback", ["end"], method=m) for m in ("syn", "", "sack", "syn_socket", "bogus")] +
      [J("traceroute", "Verif_C20_fallback", ["prefer-sack-ok", "prefer-fallback", "prefer-fatal"], method="prefer_sack")] +
      [J("traceroute", "Verif_C20_e2e", ["end"], protocol="tcp", method=m) for m in ("sack", "prefer_sack", "syn")] + [J("traceroute", "Verif_C20_e2e", ["end"], protocol="udp", method="sack")] +
-     [J("sack", "Verif_Step_sack_arb", ["not-supported"], L=40, max=30, loosen=1, c20=1), J("sack", "Verif_C20_handshake", ["established", "not-supported"], max=30)],
+     [J("sack", "Verif_Step_sack_arb", ["not-supported"], L=40, max=30, loosen=1, c20=1), J("sack", "Verif_C20_handshake", ["established", "not-supported"], max=30),
+      J("sack", "Verif_C20_handshake", ["established", "not-supported"], max=30, slots=4)],
      [J("traceroute", "Verif_C20_fallback", ["end"], method=m) for m in ("syn", "", "sack", "syn_socket", "bogus", "prefer_sack")] +
      [J("traceroute", "Verif_C20_e2e", ["end"], protocol=p, method=m) for p in ("tcp", "udp", "icmp") for m in ("sack", "prefer_sack", "syn", "")] +
      [J("sack", "Verif_Step_sack_arb", ["not-supported"], L=40, max=30, loosen=1, c20=1), J("sack", "Verif_Step_sack_arb", ["not-supported"], L=48, max=255, loosen=0, c20=1, maxDOff=7),
-      J("sack", "Verif_C20_handshake", ["established", "not-supported"], max=30), J("sack", "Verif_C20_handshake", ["established", "not-supported"], max=255, noise=1)],
+      J("sack", "Verif_C20_handshake", ["established", "not-supported"], max=30), J("sack", "Verif_C20_handshake", ["established", "not-supported"], max=255, noise=1),
+      J("sack", "Verif_C20_handshake", ["established", "not-supported"], max=30, slots=4), J("sack", "Verif_C20_handshake", ["established", "not-supported"], max=30, slots=5)],
      {"error chains": "depth <= 3; each level fmt.Errorf %w / errors.Join / custom Unwrap type / fmt.Errorf %v (chain lost); NotSupportedError at the leaf or absent",
-      "scope": "parts (a) and (d) of DESIGN 5 C20: the policy function with recording closures, and the e2e probe's method choice"},
-     ["dial failure => NotSupportedError and 'method syn never dials' (entry-point harness: not built yet)"])
+      "scope": "parts (a) and (d) of DESIGN 5 C20: the policy function with recording closures, and the e2e probe's method choice; the real matcher (ACK without SACK blocks) and the real ReadHandshake",
+      "handshake": "SYN-ACK option layouts: the fixed Linux layout with/without SACK-permitted and timestamps, and free layouts of 4 (thorough 5) option slots, each NOP / MSS / window scale / SACK-permitted / timestamps in any order (Windows and BSD layouts with padding before SACK-permitted are instances)"},
+     ["dial failure => NotSupportedError and 'method syn never dials' are decided in C10's entry-point jobs (labels C20/...)"])
 
 
 # ---- engine-level harnesses (model driver, real TracerouteParallel/Serial, all schedules) ----
